@@ -33,6 +33,10 @@ func (e *Error) updateFromTokenIfNeeded(template *Template, t *Token) *Error {
 		e.Token = t
 		e.Line = t.Line
 		e.Column = t.Col
+		if e.Filename == "" {
+			// a position means nothing without the source it lies in
+			e.Filename = t.Filename
+		}
 	}
 
 	return e
